@@ -109,8 +109,27 @@ fn check_offsets(p: &rpm::Package, o: &mut Outcome, stage: &str) {
         let mut w = Vec::new();
         p.write(&mut w).map(|_| (w, p.metadata.get_package_segment_offsets()))
     });
+    // the same bytes must come out of a sink that takes three bytes at a time
+    struct Trickle(Vec<u8>);
+    impl std::io::Write for Trickle {
+        fn write(&mut self, b: &[u8]) -> std::io::Result<usize> {
+            let n = b.len().min(3);
+            self.0.extend_from_slice(&b[..n]);
+            Ok(n)
+        }
+        fn flush(&mut self) -> std::io::Result<()> {
+            Ok(())
+        }
+    }
+    let mut t = Trickle(vec![]);
+    let tr = panics::catch(|| p.write(&mut t));
     let (w, off) = match r {
-        Ok(Ok(v)) => v,
+        Ok(Ok(v)) => {
+            if !matches!(tr, Ok(Ok(()))) || t.0 != v.0 {
+                o.fail("bytes-depend-on-sink", format!("{stage}: writing through a sink that accepts 3 bytes per call gives {} bytes, a Vec gives {} ({})", t.0.len(), v.0.len(), super::common::first_diff(&t.0, &v.0)));
+            }
+            v
+        }
         Ok(Err(e)) => {
             o.fail("write-error", e.to_string());
             return;
